@@ -395,6 +395,8 @@ def main():
     harness_problems = []
     digests = {}
     feature_sets = FEATURE_SETS if prop == "C20" else [FEATURE_SETS[0], FEATURE_SETS[5]]
+    if prop == "C19":
+        feature_sets = feature_sets + [FEATURE_SETS[2]]     # serde: reading a Level is a construction path
     njobs = 16 if tier == "thorough" else 8
     total = cfg[tier]
     for tag, extra in feature_sets:
